@@ -17,6 +17,6 @@ cp /repo/go.sum harness/go.sum
 for d in harness/c[0-9][0-9]*; do
   p=$(basename "$d" | tr a-z A-Z | cut -c1-3)
   mkdir -p "build/$p"
-  (cd harness && go1.26.8 test -c -tags verif -o "../build/$p/harness.test" "./$(basename "$d")")
+  (cd harness && go1.26.8 test -c -tags verif -o "../build/$p/harness-$(basename "$d").test" "./$(basename "$d")")
 done
 echo setup done
